@@ -536,6 +536,13 @@ func (x *pexec) doReadFrom(op *Op) string {
 		if !full {
 			x.fail("C15", "readfrom_err", "", "ReadFrom returned ErrFullBuffer with %d of %d bytes held", heldBefore+h, x.bc.BufferSize)
 		}
+		if rd.lastRet != nil && rd.lastN > 0 {
+			// the reader ended (EOF) or failed in the very Read that delivered
+			// the last bytes: everything it gave was taken, and its own error
+			// must not be replaced (a nil-returning last Read leaves ReadFrom no
+			// way to know, there either answer is accepted)
+			x.fail("C15", "readfrom_err", "", "ReadFrom returned ErrFullBuffer although the reader's last Read delivered its %d bytes together with %s and all of them were stored", rd.lastN, errName(rd.lastRet))
+		}
 	case err == nil:
 		// nil is tolerated only if everything was taken
 		if !rd.Exhausted() {
